@@ -70,7 +70,7 @@ class CommandWrapper(Wrapper):
         async def call(pattern, batch_size):
             return backend.scan(pattern=pattern, batch_size=batch_size)
 
-        for middleware in reversed(self._default_middlewares):
+        for middleware in self._default_middlewares:
             call = partial(middleware, call, Command.SCAN, backend)
 
         for middleware in self._middlewares[backend._id]:
@@ -90,7 +90,7 @@ class CommandWrapper(Wrapper):
         async def call(pattern, batch_size):
             return backend.get_match(pattern=pattern, batch_size=batch_size)
 
-        for middleware in reversed(self._default_middlewares):
+        for middleware in self._default_middlewares:
             call = partial(middleware, call, Command.GET_MATCH, backend)
 
         for middleware in middlewares:
